@@ -39,6 +39,9 @@ def run(ctx):
         ctx.run_rule("R2-open-flags", r2b_symlink_safe, F)
         ctx.run_rule("R3-root-clamp", r3_clamp, F)
         ctx.run_rule("R4-relative-paths", r4_paths, F)
+        A = ctx.facts("A", required=False)
+        if A is not None:
+            ctx.run_rule("R1-name-gate-async", r1_gate_async, A)
     finally:
         vf.NOUPD[0] = False
         vf.NOCAST[0] = False
@@ -113,6 +116,39 @@ def r1_gate(ctx, F):
     r = vf.render(v.ret(), b, short=True, vfx=v)
     ctx.check("R1-name-gate", "validate/einval", "vfs::is_safe_path_component(name)" in r and "Err(Error::from_raw_os_error(EINVAL))" in r, "validate_path_component: %s" % r[:200], loc=b.loc())
     ctx.floor("R1-name-gate", 50)
+
+
+def r1_gate_async(ctx, A):
+    """The async entry points of the VFS that take a name (async-io build): same gates, before anything else."""
+    from rules import c20
+    rule = "R1-name-gate-async"
+    for nm, kind in (("async_create", "validate"), ("async_lookup", "slash")):
+        ms = [x for x in A.find(name=nm, self_adt=VFS) if x.trait == common.AFS_TRAIT]
+        if len(ms) != 1:
+            raise core.Anchor("Vfs::%s" % nm)
+        fn = ms[0]
+        ctx.fn_seen(fn)
+        body, v = c20.async_frame(A, fn)
+        calls = [c for c in live_calls(body) if c.name not in ("branch", "from_residual", "poll", "into_future", "new_unchecked", "get_context")]
+        if kind == "validate":
+            gs = [c for c in calls if c.name == "validate_path_component" and vf.render(v.call_args(c)[0], fn, short=True, vfx={body.key: v}) == "name"]
+            if not ctx.check(rule, "Vfs::%s/validated" % nm, len(gs) == 1, "Vfs::%s does not validate its `name` argument" % nm, loc=fn.loc()):
+                continue
+            g = gs[0]
+            tb = body.call_at(g.target) if g.target is not None else None
+            ok_bb = None
+            if tb is not None and tb.name == "branch" and tb.target is not None and body.term(tb.target)[0] == "switch":
+                ok_bb = [t for (lab, t) in body.switch_edges(tb.target) if lab == 0][0]
+            bad = sorted(set(c.name for c in calls if c is not g and (ok_bb is None or not body.dominates(ok_bb, c.bb))))
+            ctx.check(rule, "Vfs::%s/first" % nm, ok_bb is not None and not bad,
+                      "Vfs::%s performs %s before (or without) having validated `name`: a multi-component name reaches a backend that relies on the VFS's validation" % (nm, bad[:5]), loc=g.loc())
+        else:
+            others = [c for c in calls if c.name in ("get_real_rootfs", "lookup_pseudo", "async_lookup", "lookup")]
+            ok = bool(others)
+            for c in others:
+                g = [(vf.render(cond, fn, short=True, vfx={body.key: v}), lab) for (cond, lab, u) in v.guards(c.bb)]
+                ok = ok and any(t in ("impl [T]::contains(CStr::to_bytes_with_nul(name), 47)", "impl [T]::contains(CStr::to_bytes_with_nul(name), SLASH_ASCII)") and lab == 0 for (t, lab) in g)
+            ctx.check(rule, "Vfs::%s/slash" % nm, ok, "Vfs::%s reaches the backend without refusing names that contain '/'" % nm, loc=fn.loc())
 
 
 def gate_first_multi(ctx, b, key, pname, gate_names, all_params):
@@ -232,7 +268,7 @@ def r2b_symlink_safe(ctx, F):
             args = v.call_args(c)
             fl = args[2] if tgt.endswith("util::openat") else args[2]
             owner = b.name if b.kind != "closure" else F.fns[b.owner].name
-            n += 1
+            n += 0 if (owner == "open_file" and b.key == PFS_OPEN_FILE(F)) else 1     # the forwarder is not a site of its own
             if owner == "reopen_fd_through_proc":
                 path = vf.render(args[1], b, short=True)
                 ctx.check("R2-open-flags", "openat/%s" % owner, "as_raw_fd(fd)" in path and vf.render(args[0], b, short=True) == "proc_self_fd" and not (may_bits(fl) & O_CREAT),
@@ -248,11 +284,13 @@ def r2b_symlink_safe(ctx, F):
             ctx.check("R2-open-flags", "openat/%s" % owner, ok,
                       "%s opens a name with flags `%s`: neither O_NOFOLLOW nor O_CREAT|O_EXCL is certainly set, so a symlink planted under the "
                       "export is followed out of it" % (owner, vf.render(fl, b, short=True)[:160]), loc=c.loc(), detail=vf.render(fl, b, short=True)[:120])
-    ctx.check("R2-open-flags", "openat/count", n >= 5, "only %d name-opening call sites found" % n)
+    ctx.check("R2-open-flags", "openat/count", n >= 4, "only %d name-opening call sites found" % n)
 
 
 def PFS_OPEN_FILE(F):
-    return F.method(PFS, "open_file").key
+    # the one-line forwarder PassthroughFs::open_file; it may have been merged into its caller
+    bs = [b for b in F.find(name="open_file", self_adt=PFS) if b.kind == "assoc"]
+    return bs[0].key if len(bs) == 1 else None
 
 
 def r3_clamp(ctx, F):
